@@ -7,6 +7,10 @@ package main
 
 import (
 	"fmt"
+	"io"
+	"net"
+	"os"
+	"strings"
 	"sync/atomic"
 	"time"
 
@@ -161,6 +165,75 @@ func c08AfterTestRoot() (fail string) {
 				return fmt.Sprintf("test root (no reporter, no interval) closed; a scope obtained afterwards by %s is not inert: the root's snapshot now has the %s", d.what, k)
 			}
 		}
+	}
+	return ""
+}
+
+// c08Null: a root whose reporter is tally.NullStatsReporter ("metrics disabled"): Close is the same
+// barrier - the reporting goroutine ends, scopes obtained afterwards are inert.
+func c08Null(withInterval bool) string {
+	var interval time.Duration
+	if withInterval {
+		interval = time.Millisecond
+	}
+	root, closer := tally.NewRootScope(tally.ScopeOptions{Reporter: tally.NullStatsReporter, OmitCardinalityMetrics: true}, interval)
+	sub := root.SubScope("s")
+	sub.Counter("c").Inc(1)
+	if err := closer.Close(); err != nil {
+		return fmt.Sprintf("Close of a root on NullStatsReporter returned %v", err)
+	}
+	if withInterval {
+		if st := strings.Join(allStacksSplit(), "\n\n"); strings.Contains(st, "tally/v4.(*scope).reportLoop") {
+			return "root on tally.NullStatsReporter with an interval: the reportLoop goroutine has not ended when Close returns"
+		}
+	}
+	for what, sc := range map[string]tally.Scope{`root.SubScope("late")`: root.SubScope("late"), "root.Tagged({a:b})": root.Tagged(map[string]string{"a": "b"}),
+		`sub.SubScope("x") (sub obtained before the Close)`: sub.SubScope("x"), "sub.Tagged({a:b})": sub.Tagged(map[string]string{"a": "b"})} {
+		if sc != tally.NoopScope {
+			return fmt.Sprintf("root on tally.NullStatsReporter closed; the scope obtained afterwards by %s is not the inert scope (tally.NoopScope) but a live one", what)
+		}
+	}
+	if err := closer.Close(); err != nil {
+		return fmt.Sprintf("a further Close returned %v", err)
+	}
+	return ""
+}
+
+// c08CloseErr: "if the reporter can be closed ... its error is returned": whatever error it is - also
+// errors that say "already closed".
+func c08CloseErr(cached bool, kind int) string {
+	log := &Log{}
+	var want error
+	switch kind {
+	case 0:
+		want = os.ErrClosed
+	case 1:
+		want = fmt.Errorf("flush file: %w", os.ErrClosed)
+	case 2:
+		want = &net.OpError{Op: "close", Net: "udp", Err: net.ErrClosed}
+	default:
+		want = io.ErrClosedPipe
+	}
+	opts := tally.ScopeOptions{OmitCardinalityMetrics: true}
+	if cached {
+		opts.CachedReporter = &RecCachedCloser{RecCached: RecCached{L: log, Caps: caps{true, true}}, Err: want}
+	} else {
+		opts.Reporter = &RecCloser{RecReporter: RecReporter{L: log, Caps: caps{true, true}}, Err: want}
+	}
+	root, closer := tally.VerifNewRootScope(opts, 0, 2)
+	root.Counter("c").Inc(1)
+	got := closer.Close()
+	if got != want {
+		return fmt.Sprintf("the reporter's Close returned the error %q (%T); the root's Close returned %v", want, want, got)
+	}
+	n := 0
+	for _, e := range log.Snapshot() {
+		if e.K == 7 {
+			n++
+		}
+	}
+	if n != 1 {
+		return fmt.Sprintf("the reporter's Close returned the error %q; the reporter was closed %d times (expected once)", want, n)
 	}
 	return ""
 }
